@@ -160,15 +160,16 @@ func JoinRun(m *MultiBucket, writers, opsEach, keys int, r *rng.R) (JoinResult, 
 // ---------------------------------------------------------------- checkpointed feeds (C15)
 
 type CheckpointResult struct {
-	Runs                 int      `json:"runs"`
-	Delivered            int      `json:"delivered"`
-	StopsWithQueued      int      `json:"stopsWithQueuedEvents"`
-	StopsWhileBusy       int      `json:"stopsWhileWritersActive"`
-	Checkpoints          []uint64 `json:"checkpoints"`
-	Writes               int      `json:"writes"`
-	OfflineRecreations   int      `json:"recreationsWhileStopped"`
-	FutureImports        int      `json:"importsWithFutureCas"`
-	FinalVersionsChecked int      `json:"finalVersionsChecked"`
+	Runs                   int      `json:"runs"`
+	Delivered              int      `json:"delivered"`
+	StopsWithQueued        int      `json:"stopsWithQueuedEvents"`
+	StopsWhileBusy         int      `json:"stopsWhileWritersActive"`
+	Checkpoints            []uint64 `json:"checkpoints"`
+	Writes                 int      `json:"writes"`
+	OfflineRecreations     int      `json:"recreationsWhileStopped"`
+	FutureImports          int      `json:"importsWithFutureCas"`
+	ResumesRightAfterAStop int      `json:"resumesRightAfterAStop"`
+	FinalVersionsChecked   int      `json:"finalVersionsChecked"`
 }
 
 type cpDoc struct {
@@ -390,6 +391,15 @@ func CheckpointRun(m *MultiBucket, writers, opsEach, keys, restarts int, r *rng.
 	}
 	<-writersDone
 	res.Writes = int(acked.Load())
+	// one more interrupted run after everything has been written, and then the final run straight away: nothing is
+	// written between the checkpoint that run saves and the resume, so the checkpoint document is the collection's
+	// newest mutation while documents older than it are still undelivered
+	if r.Chance(2, 3) {
+		if msg := runFeed(false, 1+r.Intn(3)); msg != "" {
+			return res, msg, map[string]any{"result": res}
+		}
+		res.ResumesRightAfterAStop++
+	}
 	if msg := runFeed(true, 0); msg != "" {
 		return res, msg, map[string]any{"result": res}
 	}
